@@ -996,6 +996,21 @@ func ruleST1(c *Ctx) *rule {
 	if n == 0 {
 		r.bad("module json-print", "-", "nothing prints the JSON report to standard output")
 	}
+	// the logger: a zap sink on "stdout" puts the debug lines into the document
+	for _, key := range []string{"go.uber.org/zap.Config.OutputPaths", "go.uber.org/zap.Config.ErrorOutputPaths"} {
+		for _, st := range c.fieldStores()[key] {
+			if !inModule(st.Parent()) {
+				continue
+			}
+			sl := c.newSlicer()
+			sl.depth = 0
+			for _, cst := range sl.run(st.Val).consts {
+				if s, ok := constString(cst); ok && s == "stdout" {
+					r.bad(fname(st.Parent())+" "+key, c.ipos(st), "the logger is given standard output as a sink: with --json --debug the output is log lines followed by the report, not one JSON document (and --quiet is not quiet)")
+				}
+			}
+		}
+	}
 	// uses of os.Stdout
 	for _, f := range c.ModFuncs {
 		for _, b := range f.Blocks {
@@ -2359,12 +2374,11 @@ func ruleST9(c *Ctx) *rule {
 	n := 0
 	for _, f := range c.ModFuncs {
 		for _, site := range callSites(f) {
+			// static calls, calls through an interface (logger.Debug) and calls of function values (the closure returned
+			// by color.SprintfFunc keeps its parameter names in its type) alike
 			callee := site.Common().StaticCallee()
-			if callee == nil || site.Common().IsInvoke() {
-				continue
-			}
-			sig := callee.Signature
-			if !sig.Variadic() || sig.Params().Len() < 2 {
+			sig := site.Common().Signature()
+			if sig == nil || !sig.Variadic() || sig.Params().Len() < 2 {
 				continue
 			}
 			fi := sig.Params().Len() - 2
@@ -2376,7 +2390,7 @@ func ruleST9(c *Ctx) *rule {
 				continue
 			}
 			args := site.Common().Args
-			if sig.Recv() != nil {
+			if callee != nil && callee.Signature.Recv() != nil && !site.Common().IsInvoke() {
 				fi++
 			}
 			if fi >= len(args) {
